@@ -1,10 +1,52 @@
 /-
-C17 – re-statements of the function-outline ties of source files this property DEPENDS on without being anchored in
-them (bin/mk_dependency_ties.py; hand-run): a source change there is reported for C17 as well.
+C17 – re-statements of the function-outline ties of the source files this property DEPENDS on without being anchored in
+them: the other files of its packages and every package they import (bin/mk_dependency_ties.py; hand-run). A source change
+there is reported for C17 as well.
 -/
+import Uniflow.Props.C14Tie1
+import Uniflow.Props.C14Tie2
 import Uniflow.Props.C15TieSrc
+import Uniflow.Props.C16Tie1
+import Uniflow.Props.C16Tie6
+import Uniflow.Props.C16Tie2
+import Uniflow.Props.C16Tie4
+import Uniflow.Props.C16Tie5
+import Uniflow.Props.C16Tie3
 
+theorem C17.dep_C14_types_binary_as_modelled : type_of% C14.src_types_binary_as_modelled := C14.src_types_binary_as_modelled
+theorem C17.dep_C14_types_boolean_as_modelled : type_of% C14.src_types_boolean_as_modelled := C14.src_types_boolean_as_modelled
+theorem C17.dep_C14_types_buffer_as_modelled : type_of% C14.src_types_buffer_as_modelled := C14.src_types_buffer_as_modelled
+theorem C17.dep_C14_types_error_as_modelled : type_of% C14.src_types_error_as_modelled := C14.src_types_error_as_modelled
+theorem C17.dep_C14_types_float_as_modelled : type_of% C14.src_types_float_as_modelled := C14.src_types_float_as_modelled
+theorem C17.dep_C14_types_integer_as_modelled_1 : type_of% C14.src_types_integer_as_modelled_1 := C14.src_types_integer_as_modelled_1
+theorem C17.dep_C14_types_integer_as_modelled_2 : type_of% C14.src_types_integer_as_modelled_2 := C14.src_types_integer_as_modelled_2
+theorem C17.dep_C14_types_slice_as_modelled_1 : type_of% C14.src_types_slice_as_modelled_1 := C14.src_types_slice_as_modelled_1
+theorem C17.dep_C14_types_slice_as_modelled_2 : type_of% C14.src_types_slice_as_modelled_2 := C14.src_types_slice_as_modelled_2
+theorem C17.dep_C14_types_string_as_modelled : type_of% C14.src_types_string_as_modelled := C14.src_types_string_as_modelled
+theorem C17.dep_C14_types_uinteger_as_modelled_1 : type_of% C14.src_types_uinteger_as_modelled_1 := C14.src_types_uinteger_as_modelled_1
+theorem C17.dep_C14_types_uinteger_as_modelled_2 : type_of% C14.src_types_uinteger_as_modelled_2 := C14.src_types_uinteger_as_modelled_2
+theorem C17.dep_C14_types_value_as_modelled : type_of% C14.src_types_value_as_modelled := C14.src_types_value_as_modelled
 theorem C17.dep_C15_types_map_as_modelled_1 : type_of% C15.src_types_map_as_modelled_1 := C15.src_types_map_as_modelled_1
 theorem C17.dep_C15_types_map_as_modelled_2 : type_of% C15.src_types_map_as_modelled_2 := C15.src_types_map_as_modelled_2
 theorem C17.dep_C15_types_map_as_modelled_3 : type_of% C15.src_types_map_as_modelled_3 := C15.src_types_map_as_modelled_3
 theorem C17.dep_C15_types_map_as_modelled_4 : type_of% C15.src_types_map_as_modelled_4 := C15.src_types_map_as_modelled_4
+theorem C17.dep_C16_types_binary_as_modelled_1 : type_of% C16.src_types_binary_as_modelled_1 := C16.src_types_binary_as_modelled_1
+theorem C17.dep_C16_types_binary_as_modelled_2 : type_of% C16.src_types_binary_as_modelled_2 := C16.src_types_binary_as_modelled_2
+theorem C17.dep_C16_types_boolean_as_modelled : type_of% C16.src_types_boolean_as_modelled := C16.src_types_boolean_as_modelled
+theorem C17.dep_C16_types_buffer_as_modelled_1 : type_of% C16.src_types_buffer_as_modelled_1 := C16.src_types_buffer_as_modelled_1
+theorem C17.dep_C16_types_buffer_as_modelled_2 : type_of% C16.src_types_buffer_as_modelled_2 := C16.src_types_buffer_as_modelled_2
+theorem C17.dep_C16_types_error_as_modelled : type_of% C16.src_types_error_as_modelled := C16.src_types_error_as_modelled
+theorem C17.dep_C16_types_float_as_modelled_1 : type_of% C16.src_types_float_as_modelled_1 := C16.src_types_float_as_modelled_1
+theorem C17.dep_C16_types_float_as_modelled_2 : type_of% C16.src_types_float_as_modelled_2 := C16.src_types_float_as_modelled_2
+theorem C17.dep_C16_types_integer_as_modelled_1 : type_of% C16.src_types_integer_as_modelled_1 := C16.src_types_integer_as_modelled_1
+theorem C17.dep_C16_types_integer_as_modelled_2 : type_of% C16.src_types_integer_as_modelled_2 := C16.src_types_integer_as_modelled_2
+theorem C17.dep_C16_types_map_as_modelled_1 : type_of% C16.src_types_map_as_modelled_1 := C16.src_types_map_as_modelled_1
+theorem C17.dep_C16_types_map_as_modelled_2 : type_of% C16.src_types_map_as_modelled_2 := C16.src_types_map_as_modelled_2
+theorem C17.dep_C16_types_map_as_modelled_3 : type_of% C16.src_types_map_as_modelled_3 := C16.src_types_map_as_modelled_3
+theorem C17.dep_C16_types_map_as_modelled_4 : type_of% C16.src_types_map_as_modelled_4 := C16.src_types_map_as_modelled_4
+theorem C17.dep_C16_types_slice_as_modelled : type_of% C16.src_types_slice_as_modelled := C16.src_types_slice_as_modelled
+theorem C17.dep_C16_types_string_as_modelled_1 : type_of% C16.src_types_string_as_modelled_1 := C16.src_types_string_as_modelled_1
+theorem C17.dep_C16_types_string_as_modelled_2 : type_of% C16.src_types_string_as_modelled_2 := C16.src_types_string_as_modelled_2
+theorem C17.dep_C16_types_string_as_modelled_3 : type_of% C16.src_types_string_as_modelled_3 := C16.src_types_string_as_modelled_3
+theorem C17.dep_C16_types_uinteger_as_modelled_1 : type_of% C16.src_types_uinteger_as_modelled_1 := C16.src_types_uinteger_as_modelled_1
+theorem C17.dep_C16_types_uinteger_as_modelled_2 : type_of% C16.src_types_uinteger_as_modelled_2 := C16.src_types_uinteger_as_modelled_2
